@@ -73,7 +73,7 @@ class Ctx:
 
     def floor(self, rule, what, count, floor):
         self.ob(rule, "floor:" + what, count >= floor,
-                "matched %d instance(s) of %s, floor (counted by hand on the pinned tree) is %d" % (count, what, floor),
+                "matched %d instance(s) of %s, floor (the fewest a correct implementation can have; guards against a vacuous pass) is %d" % (count, what, floor),
                 what=None if count >= floor else "anchor-lost")
 
     def engine(self, **kw):
